@@ -141,7 +141,15 @@ def event_ops(ev: dict, before: dict):
         return [(NO_ANN, f"OpResetToPending {l}")]
     if op == "validate":
         l = cstr(label(a["step"]))
-        return [(NO_ANN, f"OpResetToPending {l}" if a["changed"] else f"OpValidatePending {l}")]
+        if a["changed"]:
+            return [(NO_ANN, f"OpResetToPending {l}")]
+        if a.get("deferred", True):
+            return [(NO_ANN, f"OpValidatePending {l}")]
+        # the computed flag of the repaired validate_dynamic_job came out False (no dynamic input is unusable
+        # any more): set_state(PENDING, False).  Graph.v has no operation for CHECKING -> PENDING that keeps
+        # the hash without deferring; the same row writes are OpValidatePending (PENDING, deferred) followed
+        # by mark_step_pending on the now PENDING step (set_state(PENDING), nothing else), in one transaction.
+        return [(NO_ANN, f"OpValidatePending {l}"), (NO_ANN, f"OpMarkStepPending {l}")]
     if op == "mark_pending":
         return [(NO_ANN, f"OpMarkStepPending {cstr(label(a['step']))}")]
     if op == "external":
